@@ -58,6 +58,11 @@ pub enum SQ {
     UnionNf(Vec<u8>),
     /// union of body terms queried without frequencies (IndexRecordOption::Basic on a field indexed with positions)
     UnionBasic(Vec<u8>),
+    /// `+m s^-k`: a required term and an optional one with a negative boost (demotion): scores below the required
+    /// term's own score, negative for some documents
+    Demote(u8, u8, u8),
+    /// a single term with a negative boost: every score is negative
+    Negative(u8, u8),
 }
 #[derive(Clone, Debug, Serialize, Deserialize)]
 pub struct Probe {
@@ -87,6 +92,8 @@ fn to_q(sq: &SQ) -> Q {
         SQ::TermNf(w) => Q::TermNf(*w),
         SQ::UnionNf(ws) => Q::Bool(ws.iter().map(|w| (1u8, Q::TermNf(*w))).collect(), None),
         SQ::UnionBasic(ws) => Q::Bool(ws.iter().map(|w| (1u8, Q::Term(*w, 0))).collect(), None),
+        SQ::Demote(m, w, k) => Q::Bool(vec![(0u8, Q::Term(*m, 1)), (1u8, Q::Boost(Box::new(Q::Term(*w, 1)), 200 + *k % 8))], None),
+        SQ::Negative(w, k) => Q::Boost(Box::new(Q::Term(*w, 1)), 200 + *k % 8),
     }
 }
 fn clauses(q: &Q) -> usize {
@@ -124,6 +131,8 @@ impl Sub for TopK {
             1 => w().prop_map(SQ::TermNf),
             1 => prop::collection::vec(w(), 2..5).prop_map(SQ::UnionNf),
             2 => prop::collection::vec(w(), 2..5).prop_map(SQ::UnionBasic),
+            1 => (w(), w(), 0u8..8).prop_map(|(m, s, k)| SQ::Demote(m, s, k)),
+            1 => (w(), 0u8..8).prop_map(|(s, k)| SQ::Negative(s, k)),
         ];
         let key = prop_oneof![
             6 => Just(Key::Score),
@@ -137,7 +146,7 @@ impl Sub for TopK {
             1 => any::<bool>().prop_map(Key::JsonV),
         ];
         let probe = (sq, 0u8..12, prop_oneof![4 => Just(0u8), 1 => 1u8..6], key).prop_map(|(q, k, o, key)| Probe { q, k, o, key });
-        (corpus_strategy(tier.pick(40, 160)), prop::collection::vec(probe, 20..41), any::<bool>(), 0u8..6, prop::collection::vec(any::<u16>(), 3..7))
+        (corpus_strategy(tier.pick(40, 160)), prop::collection::vec(probe, 20..41), any::<bool>(), 0u8..8, prop::collection::vec(any::<u16>(), 3..7))
             .prop_map(|(mut corpus, probes, threads4, uniform, extra_cuts)| {
                 // >= 3 uneven segments often
                 if corpus.cuts.len() < 2 {
@@ -167,7 +176,7 @@ impl Sub for TopK {
                     if uniform == 2 {
                         corpus.deletes.truncate(1);
                     }
-                } else if uniform == 3 && corpus.docs.len() >= 6 {
+                } else if (uniform == 3 || uniform >= 6) && corpus.docs.len() >= 6 {
                     // block-max pruning: 4-8 template documents with different (term frequency, length) pairs replicated
                     // until every segment holds several full 128-document posting blocks of the frequent words, and
                     // mark words on the leading documents so that the average field length differs between the segments
@@ -175,8 +184,47 @@ impl Sub for TopK {
                     // of the searcher)
                     let t = 4 + (extra_cuts[0] as usize % 5);
                     let templates: Vec<QDoc> = corpus.docs.iter().take(t).cloned().collect();
-                    corpus.docs = (0..40).map(|i| templates[(i * 3 + i / t) % templates.len()].clone()).collect();
-                    corpus.repeat = 40;
+                    if uniform == 3 && extra_cuts[0] % 2 == 0 {
+                        corpus.docs = (0..40).map(|i| templates[(i * 3 + i / t) % templates.len()].clone()).collect();
+                        corpus.repeat = 40;
+                    } else {
+                        // not periodic: regions of ~400 documents use mainly two of the templates each (so the average
+                        // length differs from region to region, in both directions), about 1 % of the documents are
+                        // any template - the rare short or term-rich document that a whole block has to be kept for
+                        let n = 1500 + (extra_cuts[1] as usize % 700);
+                        let seed = extra_cuts[0] as u64 * 65537 + extra_cuts[2] as u64;
+                        // besides the templates: long versions (every value of the body 6-10 times: high term frequency in a
+                        // long document) and tiny versions (the first word only) of the first templates
+                        let mut templates = templates;
+                        for k in 0..templates.len().min(3) {
+                            let mut long = templates[k].clone();
+                            let times = 6 + (seed as usize + k) % 5;
+                            long.body = long.body.iter().map(|v| v.iter().cycle().take(v.len() * times).cloned().collect()).collect();
+                            let mut tiny = templates[k].clone();
+                            tiny.body = tiny.body.iter().take(1).map(|v| v.iter().take(1).cloned().collect()).collect();
+                            templates.push(long);
+                            templates.push(tiny);
+                        }
+                        let base = templates.len() - 2 * templates.len().min(3).min((templates.len()) / 3);
+                        let _ = base;
+                        corpus.docs = (0..n)
+                            .map(|i| {
+                                let h = mix(seed, i as u64);
+                                let region = i / 400;
+                                // odd regions are dominated by the long versions, even ones by tiny and plain documents
+                                let k = if h % 61 == 0 {
+                                    (h >> 8) as usize % templates.len()
+                                } else if region % 2 == 1 {
+                                    let longs: Vec<usize> = (0..templates.len()).filter(|j| templates[*j].body.iter().map(|v| v.len()).sum::<usize>() > 12).collect();
+                                    if longs.is_empty() { (h >> 16) as usize % templates.len() } else { longs[(h >> 16) as usize % longs.len()] }
+                                } else {
+                                    ((h >> 16) as usize % 3 + region) % templates.len()
+                                };
+                                templates[k].clone()
+                            })
+                            .collect();
+                        corpus.repeat = 1;
+                    }
                     corpus.cuts = extra_cuts.iter().take(2).cloned().collect();
                     corpus.deletes.truncate(1);
                     if corpus.marks.len() >= 2 {
